@@ -350,6 +350,17 @@ def do_actions(acts, where):
             if _flaky_counts[where] == act[1]:
                 emit('raise', where=where, exc=act[2] if len(act) > 2 else 'AssertionError', flaky=True)
                 raise make_exc(act[2] if len(act) > 2 else 'AssertionError', 'flaky: fails in execution %d only' % act[1])
+        elif kind == 'nested_run':
+            # a test that runs the test runner in process on a one-test suite of its own
+            from zope.testrunner.runner import Runner
+
+            class _Inner(unittest.TestCase):
+                def test_inner(self):
+                    pass
+            inner = Runner([], [sys.argv[0] if sys.argv else 'inner'] + list(act[1]),
+                           found_suites=[unittest.defaultTestLoader.loadTestsFromTestCase(_Inner)])
+            inner.run()
+            emit('nested_run', failed=bool(inner.failed), where=where)
         elif kind == 'warn_filter':
             # a test (or a module at import time) that changes the warnings filters
             import warnings
